@@ -17,9 +17,9 @@ impl Hasher for Capture {
 fn ident<T: Hash + ?Sized>(t: &T) -> u64 { let mut c = Capture(0); t.hash(&mut c); c.0 }
 
 pub struct Bloom<T: ?Sized> {
-    used: [bool; BCAP],
+    used: [u64; BCAP],
     items: [u64; BCAP],
-    fp_on: [bool; 2],
+    fp_on: [u64; 2],
     fp: [u64; 2],
     _t: PhantomData<T>,
 }
@@ -28,39 +28,40 @@ impl<T: ?Sized> Bloom<T> {
         // documented preconditions of the real constructor
         assert!(items_count > 0);
         assert!(fp_p > 0.0 && fp_p < 1.0);
-        let mut b = Bloom { used: [false; BCAP], items: [0; BCAP], fp_on: [false; 2], fp: [0; 2], _t: PhantomData };
+        let mut b = Bloom { used: [0; BCAP], items: [0; BCAP], fp_on: [0; 2], fp: [0; 2], _t: PhantomData };
         b.refresh_fp();
         b
     }
     /// exact filter without false positives (state construction by harnesses)
-    pub fn vk_exact() -> Self { Bloom { used: [false; BCAP], items: [0; BCAP], fp_on: [false; 2], fp: [0; 2], _t: PhantomData } }
+    pub fn vk_exact() -> Self { Bloom { used: [0; BCAP], items: [0; BCAP], fp_on: [0; 2], fp: [0; 2], _t: PhantomData } }
     fn refresh_fp(&mut self) {
-        self.fp_on = [vs::any_bool(), vs::any_bool()];
+        self.fp_on = [vs::any_bool() as u64, vs::any_bool() as u64];
         self.fp = [vs::any_u64(), vs::any_u64()];
     }
-    pub fn vk_no_false_positives(&mut self) { self.fp_on = [false, false]; }
+    pub fn vk_no_false_positives(&mut self) { self.fp_on = [0, 0]; }
     pub fn vk_contains_exact(&self, id: u64) -> bool {
         let mut r = false; let mut i = 0;
-        while i < BCAP { if self.used[i] && self.items[i] == id { r = true; } i += 1; }
+        while i < BCAP { if self.used[i] != 0 && self.items[i] == id { r = true; } i += 1; }
         r
     }
-    pub fn vk_place(&mut self, i: usize, id: u64) { self.used[i] = true; self.items[i] = id; }
-    pub fn vk_len(&self) -> usize { let mut n = 0; let mut i = 0; while i < BCAP { if self.used[i] { n += 1; } i += 1; } n }
+    pub fn vk_place(&mut self, i: usize, id: u64) { self.used[i] = 1; self.items[i] = id; }
+    pub fn vk_place_if(&mut self, i: usize, id: u64, member: bool) { self.used[i] = member as u64; self.items[i] = id; }
+    pub fn vk_len(&self) -> usize { let mut n = 0; let mut i = 0; while i < BCAP { if self.used[i] != 0 { n += 1; } i += 1; } n }
     pub fn set(&mut self, item: &T) where T: Hash {
         let id = ident(item);
         if self.vk_contains_exact(id) { return; }
         let mut f = BCAP; let mut i = 0;
-        while i < BCAP { if f == BCAP && !self.used[i] { f = i; } i += 1; }
+        while i < BCAP { if f == BCAP && self.used[i] == 0 { f = i; } i += 1; }
         if f >= BCAP { vs::out_of_bound(); f = 0; }
-        self.used[f] = true; self.items[f] = id;
+        self.used[f] = 1; self.items[f] = id;
     }
     pub fn check(&self, item: &T) -> bool where T: Hash {
         let id = ident(item);
-        self.vk_contains_exact(id) || (self.fp_on[0] && self.fp[0] == id) || (self.fp_on[1] && self.fp[1] == id)
+        self.vk_contains_exact(id) || (self.fp_on[0] != 0 && self.fp[0] == id) || (self.fp_on[1] != 0 && self.fp[1] == id)
     }
     pub fn check_and_set(&mut self, item: &T) -> bool where T: Hash { let r = self.check(item); self.set(item); r }
     pub fn clear(&mut self) {
-        let mut i = 0; while i < BCAP { self.used[i] = false; i += 1; }
+        let mut i = 0; while i < BCAP { self.used[i] = 0; i += 1; }
         self.refresh_fp();
     }
 }
